@@ -435,6 +435,12 @@ func (x *CommonLex) LexName(c rune) (int, TokVal) {
 				x.err = fmt.Errorf("Name requires local part.")
 				return xutils.ERR, nil
 			}
+			if !x.IsNameStartChar(c) {
+				// ConstructToken takes the first character as given:
+				// 'pfx:$v', 'pfx:)' and 'pfx:1a' are no QNames.
+				x.err = fmt.Errorf("Badly formatted QName (local part starts with '%c').", c)
+				return xutils.ERR, nil
+			}
 			localPartBuf := x.ConstructToken(c, nameMatcher, "NAME")
 			localPart = localPartBuf.String()
 			prefix = name.String()
